@@ -983,10 +983,12 @@ def _get_gp_training_options(
     c = 3 * a
     d = options["gp_train_n_init"]
     eff_starting_points = optim_state["eff_starting_points"]
-    x = (n_eff - eff_starting_points) / (
+    n_span = (
         min(options["max_fun_evals"], options["n_train_max"])
         - eff_starting_points
     )
+    # No evaluations left beyond the initial design: use the final number of restarts
+    x = (n_eff - eff_starting_points) / n_span if n_span > 0 else 1.0
     f = lambda x_: a * x_**3 + b * x**2 + c * x + d
     init_N = max(round(f(x)), options["gp_train_n_init_final"])
     if (
